@@ -123,7 +123,11 @@ func externalMod(fn *ssa.Function, call *ssa.CallCommon) ModSet {
 	switch {
 	case strings.HasPrefix(name, "sort.") || strings.HasPrefix(name, "slices.Sort") || name == "slices.Reverse" || strings.HasPrefix(name, "slices.Reverse["):
 		for _, a := range call.Args {
-			if st, ok := a.Type().Underlying().(*types.Slice); ok {
+			at := a.Type()
+			if mi, ok := a.(*ssa.MakeInterface); ok {
+				at = mi.X.Type() // sort.Slice(x any, ..): the dynamic type is the slice
+			}
+			if st, ok := at.Underlying().(*types.Slice); ok {
 				if isStruct(st.Elem()) {
 					addStructLeaves(&m, st.Elem())
 				} else {
